@@ -66,6 +66,9 @@ def mkreg(rnd):
         mid = rnd.choice([0, 1])
         return csr.Register({"a": {"b": {"c": csr.Field(action.RW, 4)}, "b__c": csr.Field(action.RW, mid)}, "a__b": {"c": csr.Field(action.R, 2)},
                              "a__b__c_4": csr.Field(action.RW, 1), "a__b__c_": csr.Field(action.RW, 1)}, access="rw")
+    if x < .14:      # field names that are not identifiers, and that coincide once non-word characters are replaced
+        return csr.Register({"rx-en": csr.Field(action.RW, 1), "rx_en": csr.Field(action.RW, 2), "rx en": csr.Field(action.R, 1),
+                             "rx.en": {"x": csr.Field(action.RW, 1)}, "ü": csr.Field(action.RW, 1)}, access="rw")
     return csr.Register(rfields(rnd), access="rw")
 
 
@@ -332,6 +335,19 @@ def run_case(case):
         after = fmt_map(mm)
         if before != after:
             out["fails"].append(("C19", f"{kind} {descr}: elaboration changed the memory map", "map-changed"))
+        if kind not in ("event.Monitor", "Register") and isinstance(c, wiring.Component) and lib.rng_for(case["seed"], case["idx"], 1939).random() < 0.5:
+            # the component itself as the top level of a design (`rtlil.convert(component)`: its ports are derived from its
+            # signature) — every port is driven from the side its direction says. (event.Monitor and csr.Register are left
+            # out: on the unchanged tree they declare `pending` / `element.r_data` as inputs and drive them; see DESIGN §7.)
+            try:
+                rtlil.convert(c)
+                out["top_level"] = True
+            except Timeout:
+                raise
+            except BaseException as e:
+                where = traceback.extract_tb(e.__traceback__)[-1]
+                out["fails"].append(("C19", f"{kind} {descr}: the component cannot be converted as the top level of a design: {type(e).__name__} "
+                                            f"at {os.path.basename(where.filename)}:{where.name}: {str(e)[:100]}", f"top-level:{type(e).__name__}"))
         if lib.rng_for(case["seed"], case["idx"], 1929).random() < 0.3:
             # two instances with the same parameters in one design (two identical peripherals): they share nothing
             try:
